@@ -1711,7 +1711,13 @@ class Node:
         """
         realm_name = self.realm_name
         if hasattr(message, "destination_realm"):
-            realm_name = message.destination_realm.decode()
+            destination_realm = message.destination_realm
+        else:
+            # a message put together from AVPs has no such attribute
+            found = message.find_avps((constants.AVP_DESTINATION_REALM, 0))
+            destination_realm = found[0].value if found else None
+        if destination_realm:
+            realm_name = destination_realm.decode()
 
         peer_list = None
         if realm_name in self._peer_routes:
